@@ -5285,10 +5285,18 @@ func readOffsets(b *Bitmap, data []byte, pos int, keyN uint32) error {
 		// Map byte slice directly to the container data.
 		citer.Next()
 		_, c := citer.Value()
+		// The container data must lie inside the input: the slices below are
+		// made without bounds checks.
 		switch c.typ() {
 		case containerArray:
+			if int64(offset)+2*int64(c.N()) > int64(len(data)) {
+				return fmt.Errorf("array container data out of bounds: off=%d, n=%d, len=%d", offset, c.N(), len(data))
+			}
 			c.setArray((*[0xFFFFFFF]uint16)(unsafe.Pointer(&data[offset]))[:c.N():c.N()])
 		case containerBitmap:
+			if int64(offset)+bitmapN*8 > int64(len(data)) {
+				return fmt.Errorf("bitmap container data out of bounds: off=%d, len=%d", offset, len(data))
+			}
 			c.setBitmap((*[0xFFFFFFF]uint64)(unsafe.Pointer(&data[offset]))[:bitmapN:bitmapN])
 		default:
 			return fmt.Errorf("unsupported container type %d", c.typ())
@@ -5315,22 +5323,36 @@ func readWithRuns(b *Bitmap, data []byte, pos int, keyN uint32) error {
 		_, c := citer.Value()
 		switch c.typ() {
 		case containerRun:
+			if pos+runCountHeaderSize > len(data) {
+				return fmt.Errorf("run count out of bounds: pos=%d, len=%d", pos, len(data))
+			}
 			runCount := binary.LittleEndian.Uint16(data[pos : pos+runCountHeaderSize])
+			if pos+runCountHeaderSize+int(runCount)*interval16Size > len(data) {
+				return fmt.Errorf("run container data out of bounds: pos=%d, runs=%d, len=%d", pos, runCount, len(data))
+			}
 			// The official format stores start:length, we need start:last. The
 			// input may be mapped read-only and belongs to the caller, so the
 			// converted runs go to storage of our own.
 			runs := make([]interval16, runCount)
-			copy(runs, (*[0xFFFFFFF]interval16)(unsafe.Pointer(&data[pos+runCountHeaderSize]))[:runCount:runCount])
+			if runCount > 0 {
+				copy(runs, (*[0xFFFFFFF]interval16)(unsafe.Pointer(&data[pos+runCountHeaderSize]))[:runCount:runCount])
+			}
 			for o := range runs {
 				runs[o].last = runs[o].start + runs[o].last
 			}
 			c.setRuns(runs)
 			c.setMapped(false)
-			pos += int((runCount * interval16Size) + runCountHeaderSize)
+			pos += int(runCount)*interval16Size + runCountHeaderSize
 		case containerArray:
+			if pos >= len(data) || pos+int(c.N())*2 > len(data) {
+				return fmt.Errorf("array container data out of bounds: pos=%d, n=%d, len=%d", pos, c.N(), len(data))
+			}
 			c.setArray((*[0xFFFFFFF]uint16)(unsafe.Pointer(&data[pos]))[:c.N():c.N()])
 			pos += int(c.N() * 2)
 		case containerBitmap:
+			if pos+bitmapN*8 > len(data) {
+				return fmt.Errorf("bitmap container data out of bounds: pos=%d, len=%d", pos, len(data))
+			}
 			c.setBitmap((*[0xFFFFFFF]uint64)(unsafe.Pointer(&data[pos]))[:bitmapN:bitmapN])
 			pos += bitmapN * 8
 		}
